@@ -447,6 +447,7 @@ def const_guards(repo: Repo, chk: Check) -> None:
             ("target-is-tsl", [f"isinstance({dl}, TiledStridedLayoutAttr)"]),
             ("target-dense", [f"{dl}.data.is_dense()"]),
             ("target-static", [f"not {dl}.data.is_dynamic()"]),
+            ("target-offset-zero", [f"{dl}.data.offset == 0", f"not {dl}.data.offset"]),
         ):
             chk.result(every_alt_has(s, ts), "C12.const-guards", f"{f.key}:{name}", s.where(), f"a transformed constant is only produced under `{name}`",
                        f"transform_constant can produce a value without `{name}`: the reshape/transpose is only valid for a dense static layout on plain data", s.fact_texts)
